@@ -5,9 +5,14 @@
  * it shares no code with liblcb.
  *
  *  part A  ecdsa_sign            all d x all hash integers e in [0,2n] x all nonces k in [0,2n]
- *  part B  ecdsa_verify,         FULL truth table: all (Q, e, r, s), e in [0,2n], r,s in [0,n+1], Q = iG, i in [1,n-1]
- *          ecdsa_verify_priv_key
+ *  part B  ecdsa_verify,         FULL truth table: all (Q, e, r, s), e in [0,2n], r,s in [0,n+1], Q = iG, i in [1,n-1];
+ *          ecdsa_verify_priv_key reference-signed signatures on the larger groups
  *  part C  *_be / *_le           byte entry points on exact-size heap buffers, hash lengths bytes-1 .. 2*bytes
+ *
+ * Two kinds of binaries are built from this file (run.py):
+ *   "g" (guarded, no sanitizer): every library call runs through gc_call() - private stack pre-filled with 0xA5,
+ *       crashes and hangs of the callee become clauses.  Parts A, B, C.
+ *   "s" (ASan, GC_DISABLE): part C only, for the exact-size heap buffers.
  *
  * Clause names carry the regime of the hash so that one known deviation cannot hide another:
  *   [e<n]   the hash integer is below n                   (no reduction needed)
@@ -16,9 +21,16 @@
  */
 #include "vh.h"
 #include "tc.h"
+#include "gc.h"
 
 #ifndef C03_HEAVY
 #define C03_HEAVY 0
+#endif
+#ifndef C03_PARTS
+#define C03_PARTS 7
+#endif
+#ifndef C03_SKIP_ZERO	/* ASan builds: see NOTES.md (zero scalars make the current library read uninitialised stack) */
+#define C03_SKIP_ZERO 0
 #endif
 
 static tc_t *TC[64];
@@ -38,13 +50,64 @@ curve_get(const char *name) {
 
 static const char *algo_name[2] = { "ecdsa", "gost" };
 #define DBL(t) EC_CURVE_CALC_BITS_DBL((t)->curve)
+#define RC_CRASH (-99999)
+
+/* -------------------------------------------------------------------------- library calls (through gc_call) */
+enum { OP_SIGN, OP_VERIFY, OP_VERIFY_PRIV, OP_SIGN_B, OP_VERIFY_B, OP_VERIFY_PRIV_B };
+typedef struct call_s {
+	int	op, le, rc;
+	ec_curve_p curve;
+	bn_p	h, d, k, r, s;
+	ec_point_p q;
+	uint8_t	*bh, *bd, *bk, *br, *bs, *px, *py;
+	size_t	hlen, dlen, klen, slen, plen, *ssz;
+} call_t;
+
+static void
+call_do(void *p) {
+	call_t *c = (call_t *)p;
+	switch (c->op) {
+	case OP_SIGN:
+		c->rc = ecdsa_sign(c->curve, c->h, c->d, c->k, c->r, c->s);
+		break;
+	case OP_VERIFY:
+		c->rc = ecdsa_verify(c->curve, c->h, c->r, c->s, c->q);
+		break;
+	case OP_VERIFY_PRIV:
+		c->rc = ecdsa_verify_priv_key(c->curve, c->h, c->r, c->s, c->d);
+		break;
+	case OP_SIGN_B:
+		c->rc = c->le ? ecdsa_sign_le(c->curve, c->bh, c->hlen, c->bd, c->dlen, c->bk, c->klen, c->br, c->bs, c->ssz)
+		    : ecdsa_sign_be(c->curve, c->bh, c->hlen, c->bd, c->dlen, c->bk, c->klen, c->br, c->bs, c->ssz);
+		break;
+	case OP_VERIFY_B:
+		c->rc = c->le ? ecdsa_verify_le(c->curve, c->bh, c->hlen, c->br, c->bs, c->slen, c->px, c->py, c->plen)
+		    : ecdsa_verify_be(c->curve, c->bh, c->hlen, c->br, c->bs, c->slen, c->px, c->py, c->plen);
+		break;
+	case OP_VERIFY_PRIV_B:
+		c->rc = c->le ? ecdsa_verify_priv_key_le(c->curve, c->bh, c->hlen, c->br, c->bs, c->slen, c->bd, c->dlen)
+		    : ecdsa_verify_priv_key_be(c->curve, c->bh, c->hlen, c->br, c->bs, c->slen, c->bd, c->dlen);
+		break;
+	}
+}
+static const char *op_name[] = { "ecdsa_sign", "ecdsa_verify", "ecdsa_verify_priv_key", "ecdsa_sign_be/le", "ecdsa_verify_be/le", "ecdsa_verify_priv_key_be/le" };
+static int
+call_lib(call_t *c) {
+	int sig = gc_call(call_do, c);
+	char cl[64];
+	if (0 != sig) {
+		snprintf(cl, sizeof(cl), "%s-in-%s", (SIGALRM == sig) ? "hang" : "crash", op_name[c->op]);
+		vh_fail(cl, "%s inside the library call (private stack pre-filled with 0x%02x)", gc_signame(sig), GC_PATTERN);
+		return (RC_CRASH);
+	}
+	return (c->rc);
+}
 
 /* current case, for the lazy describer */
 static struct {
 	const char *what, *curve;
 	int algo;
 	uint32_t d, e, k, r, s;
-	int rc;
 } cur;
 static void
 desc_cur(char *b, size_t n) {
@@ -52,25 +115,37 @@ desc_cur(char *b, size_t n) {
 	    algo_name[cur.algo], cur.d, cur.e, cur.k, cur.r, cur.s);
 }
 
-/* -------------------------------------------------------------------------- bn level helpers */
 static int
 lib_verify(tc_t *t, uint32_t e, uint32_t r, uint32_t s, tc_pt_t Q) {
 	bn_t be, br, bs;
 	ec_point_t lq;
+	call_t c;
 	tc_bn_set(&be, DBL(t), e);
 	tc_bn_set(&br, DBL(t), r);
 	tc_bn_set(&bs, DBL(t), s);
 	tc_pt_to_lib(t, Q, &lq);
-	return (ecdsa_verify(t->curve, &be, &br, &bs, &lq));
+	memset(&c, 0, sizeof(c));
+	c.op = OP_VERIFY; c.curve = t->curve; c.h = &be; c.r = &br; c.s = &bs; c.q = &lq;
+	return (call_lib(&c));
 }
 static int
 lib_verify_priv(tc_t *t, uint32_t e, uint32_t r, uint32_t s, uint32_t d) {
 	bn_t be, br, bs, bd;
+	call_t c;
 	tc_bn_set(&be, DBL(t), e);
 	tc_bn_set(&br, DBL(t), r);
 	tc_bn_set(&bs, DBL(t), s);
 	tc_bn_set(&bd, DBL(t), d);
-	return (ecdsa_verify_priv_key(t->curve, &be, &br, &bs, &bd));
+	memset(&c, 0, sizeof(c));
+	c.op = OP_VERIFY_PRIV; c.curve = t->curve; c.h = &be; c.r = &br; c.s = &bs; c.d = &bd;
+	return (call_lib(&c));
+}
+/* The capacity every routine derives from curve->m ("double size + 1 digit") is too small for two factors that
+ * both need the extra digit of an n longer than the field (secp160k1/r1/r2, secp224k1 layout).  On the real curves
+ * that needs values >= 2^(8*bytes), i.e. probability 2^-80; on s251 / w65521 it is common.  Own clause. */
+static int
+is_n_overflow(tc_t *t, int rc) {
+	return (EOVERFLOW == rc && t->nbits > 8 * t->bytes);
 }
 
 /* -------------------------------------------------------------------------- part A: signing */
@@ -81,8 +156,9 @@ sign_one(tc_t *t, int algo, uint32_t d, uint32_t e, uint32_t k) {
 	bn_t bh, bd, bk, br, bs;
 	uint64_t rv, sv;
 	int rc, bad = 0;
-	const char *reg = (e < t->n) ? "e<n" : "e>=n";
-	char cl[96];
+	const char *reg = (0 == e) ? "e=0" : ((e < t->n) ? "e<n" : "e>=n");
+	char cl[112];
+	call_t c;
 
 	if (!vh_begin(T_SIGN[algo]))
 		return;
@@ -93,7 +169,9 @@ sign_one(tc_t *t, int algo, uint32_t d, uint32_t e, uint32_t k) {
 	tc_bn_set(&bk, DBL(t), k);
 	bn_init(&br, DBL(t));
 	bn_init(&bs, DBL(t));
-	rc = ecdsa_sign(t->curve, &bh, &bd, &bk, &br, &bs);
+	memset(&c, 0, sizeof(c));
+	c.op = OP_SIGN; c.curve = t->curve; c.h = &bh; c.d = &bd; c.k = &bk; c.r = &br; c.s = &bs;
+	rc = call_lib(&c);
 	if (0 != rc)
 		return; /* the property speaks about the cases where signing succeeds */
 	rv = tc_bn_get(&br); sv = tc_bn_get(&bs);
@@ -104,13 +182,19 @@ sign_one(tc_t *t, int algo, uint32_t d, uint32_t e, uint32_t k) {
 	}
 	rc = lib_verify(t, e, (uint32_t)rv, (uint32_t)sv, t->kG[d]);
 	if (0 != rc) {
-		snprintf(cl, sizeof(cl), "own-signature-rejected-by-ecdsa_verify[%s]", reg);
+		if (is_n_overflow(t, rc))
+			snprintf(cl, sizeof(cl), "own-signature-rejected:EOVERFLOW[n-longer-than-field]");
+		else
+			snprintf(cl, sizeof(cl), "own-signature-rejected-by-ecdsa_verify[%s]", reg);
 		vh_fail(cl, "ecdsa_verify rc=%d", rc);
 		bad = 1;
 	}
 	rc = lib_verify_priv(t, e, (uint32_t)rv, (uint32_t)sv, d);
 	if (0 != rc) {
-		snprintf(cl, sizeof(cl), "own-signature-rejected-by-ecdsa_verify_priv_key[%s]", reg);
+		if (is_n_overflow(t, rc))
+			snprintf(cl, sizeof(cl), "own-signature-rejected:EOVERFLOW[n-longer-than-field]");
+		else
+			snprintf(cl, sizeof(cl), "own-signature-rejected-by-ecdsa_verify_priv_key[%s]", reg);
 		vh_fail(cl, "ecdsa_verify_priv_key rc=%d", rc);
 		bad = 1;
 	}
@@ -124,21 +208,26 @@ sign_one(tc_t *t, int algo, uint32_t d, uint32_t e, uint32_t k) {
 		vh_nontrivial();
 }
 
+static uint32_t D_RED[16], E_RED[16];
+static uint32_t
+red_sets(uint32_t n, uint32_t *ne) {
+	uint32_t dv[] = { 1, 2, 3, n / 2, n - 3, n - 2, n - 1 };
+	uint32_t ev[] = { 0, 1, 2, n / 2, n - 2, n - 1, n, n + 1, n + 2, 2 * n - 2, 2 * n - 1, 2 * n };
+	memcpy(D_RED, dv, sizeof(dv));
+	memcpy(E_RED, ev, sizeof(ev));
+	*ne = sizeof(ev) / sizeof(ev[0]);
+	return (sizeof(dv) / sizeof(dv[0]));
+}
+
 static void
 sign_all(const char *cname, int reduced) {
 	tc_t *t = curve_get(cname);
-	uint32_t n = t->n, d, e, k, i, j;
+	uint32_t n = t->n, d, e, k, i, j, nd, ne;
 	int algo;
-	uint32_t D[16], E[16], nd = 0, ne = 0;
 
 	if (NULL == t->curve)
 		return;
-	if (reduced) {
-		uint32_t dv[] = { 1, 2, 3, n / 2, n - 3, n - 2, n - 1 };
-		uint32_t ev[] = { 0, 1, 2, n / 2, n - 2, n - 1, n, n + 1, n + 2, 2 * n - 2, 2 * n - 1, 2 * n };
-		for (i = 0; i < sizeof(dv) / sizeof(dv[0]); i ++) D[nd ++] = dv[i];
-		for (i = 0; i < sizeof(ev) / sizeof(ev[0]); i ++) E[ne ++] = ev[i];
-	}
+	nd = red_sets(n, &ne);
 	vh_set_describer(desc_cur);
 	for (algo = 0; algo < 2; algo ++) {
 		if (!reduced) {
@@ -150,7 +239,7 @@ sign_all(const char *cname, int reduced) {
 			for (i = 0; i < nd; i ++)
 				for (j = 0; j < ne; j ++)
 					for (k = 0; k <= 2 * n; k ++)
-						sign_one(t, algo, D[i], E[j], k);
+						sign_one(t, algo, D_RED[i], E_RED[j], k);
 		}
 	}
 	vh_set_describer(NULL);
@@ -162,11 +251,13 @@ static const char *T_VRFP[2] = { "ecdsa_verify_priv_key/ecdsa", "ecdsa_verify_pr
 static const char *T_VRF_O[2] = { "observed:ecdsa_verify(Q=O)/ecdsa", "observed:ecdsa_verify(Q=O)/gost" };
 
 static void
-decide(tc_t *t, int algo, int std, int rc, uint32_t e, uint32_t r, uint32_t s) {
-	char cl[96];
-	const char *reg = (e < t->n) ? "e<n" : "e>=n";
+decide(tc_t *t, int std, int rc, uint32_t e, uint32_t r, uint32_t s) {
+	char cl[112];
+	const char *reg = (0 == e) ? "e=0" : ((e < t->n) ? "e<n" : "e>=n");
 	int lib = (0 == rc);
 
+	if (RC_CRASH == rc)
+		return; /* already reported */
 	if (lib == std) {
 		if (std)
 			vh_nontrivial();
@@ -179,7 +270,10 @@ decide(tc_t *t, int algo, int std, int rc, uint32_t e, uint32_t r, uint32_t s) {
 			snprintf(cl, sizeof(cl), "accepts-invalid-signature[%s]", reg);
 		vh_fail(cl, "library rc=0, the standard rejects (n=%u)", t->n);
 	} else {
-		snprintf(cl, sizeof(cl), "rejects-valid-signature[%s]", reg);
+		if (is_n_overflow(t, rc))
+			snprintf(cl, sizeof(cl), "rejects-valid-signature:EOVERFLOW[n-longer-than-field]");
+		else
+			snprintf(cl, sizeof(cl), "rejects-valid-signature[%s]", reg);
 		vh_fail(cl, "library rc=%d, the standard accepts (n=%u)", rc, t->n);
 	}
 }
@@ -199,23 +293,21 @@ truth_all(const char *cname) {
 			for (e = 0; e <= 2 * n; e ++) {
 				for (r = 0; r <= n + 1; r ++) {
 					for (s = 0; s <= n + 1; s ++) {
-						int mine_a = vh_begin(T_VRF[algo]);
-						int mine_b;
-						cur.what = "verify"; cur.curve = cname; cur.algo = algo;
-						cur.d = i; cur.e = e; cur.k = 0; cur.r = r; cur.s = s;
 						std = -1;
-						if (mine_a) {
+						cur.curve = cname; cur.algo = algo;
+						cur.d = i; cur.e = e; cur.k = 0; cur.r = r; cur.s = s;
+						if (vh_begin(T_VRF[algo])) {
+							cur.what = "verify";
 							std = tc_std_verify(t, algo, e, r, s, t->kG[i]);
 							rc = lib_verify(t, e, r, s, t->kG[i]);
-							decide(t, algo, std, rc, e, r, s);
+							decide(t, std, rc, e, r, s);
 						}
-						mine_b = vh_begin(T_VRFP[algo]);
-						if (mine_b) {
+						if (vh_begin(T_VRFP[algo])) {
 							cur.what = "verify_priv_key";
 							if (std < 0)
 								std = tc_std_verify(t, algo, e, r, s, t->kG[i]);
 							rc = lib_verify_priv(t, e, r, s, i);
-							decide(t, algo, std, rc, e, r, s);
+							decide(t, std, rc, e, r, s);
 						}
 					}
 				}
@@ -224,8 +316,8 @@ truth_all(const char *cname) {
 		/* Q = O is not a public key (SEC 1 3.2.2.1, GOST 5.2: Q != O); the bn-level verifier has no way to
 		 * know.  Not enforced: count how many (e, r, s) it would accept with the neutral element as key. */
 		for (e = 0; e <= 2 * n; e ++) {
-			for (r = 0; r <= n + 1; r ++) {
-				for (s = 0; s <= n + 1; s ++) {
+			for (r = 1; r < n; r ++) {
+				for (s = 1; s < n; s ++) {
 					if (!vh_begin(T_VRF_O[algo]))
 						continue;
 					cur.what = "verify(Q=O)"; cur.curve = cname; cur.algo = algo;
@@ -243,58 +335,42 @@ truth_all(const char *cname) {
 static void
 refsig_all(const char *cname, int reduced) {
 	tc_t *t = curve_get(cname);
-	uint32_t n = t->n, d, e, k, r, s, i, j;
+	uint32_t n = t->n, d, e, k, r, s, i, j, nd, ne;
 	int algo, rc;
-	uint32_t D[16], E[16], nd = 0, ne = 0;
-	char cl[96];
 
 	if (NULL == t->curve)
 		return;
-	{
-		uint32_t dv[] = { 1, 2, 3, n / 2, n - 3, n - 2, n - 1 };
-		uint32_t ev[] = { 0, 1, 2, n / 2, n - 2, n - 1, n, n + 1, n + 2, 2 * n - 2, 2 * n - 1, 2 * n };
-		for (i = 0; i < sizeof(dv) / sizeof(dv[0]); i ++) D[nd ++] = dv[i];
-		for (i = 0; i < sizeof(ev) / sizeof(ev[0]); i ++) E[ne ++] = ev[i];
-	}
+	nd = red_sets(n, &ne);
 	vh_set_describer(desc_cur);
 	for (algo = 0; algo < 2; algo ++) {
 		t->curve->algo = (uint32_t)algo;
 		for (i = 0; i < (reduced ? nd : n - 1); i ++) {
-			d = reduced ? D[i] : i + 1;
+			d = reduced ? D_RED[i] : i + 1;
 			for (j = 0; j < (reduced ? ne : 2 * n + 1); j ++) {
-				e = reduced ? E[j] : j;
+				e = reduced ? E_RED[j] : j;
 				for (k = 1; k < n; k ++) {
-					const char *reg = (e < n) ? "e<n" : "e>=n";
 					int have = -1;
+					cur.curve = cname; cur.algo = algo;
+					cur.d = d; cur.e = e; cur.k = k; cur.r = cur.s = 0;
 					if (vh_begin(T_VRF[algo])) {
-						cur.what = "verify(reference-signed)"; cur.curve = cname; cur.algo = algo;
-						cur.d = d; cur.e = e; cur.k = k; cur.r = cur.s = 0;
+						cur.what = "verify(reference-signed)";
 						have = tc_std_sign(t, algo, e, d, k, &r, &s);
 						if (have) { /* else: the standard discards this k */
 							cur.r = r; cur.s = s;
 							if (!tc_std_verify(t, algo, e, r, s, t->kG[d]))
 								tc_die("internal: reference signer and verifier disagree", cname);
 							rc = lib_verify(t, e, r, s, t->kG[d]);
-							if (0 != rc) {
-								snprintf(cl, sizeof(cl), "rejects-valid-signature[%s]", reg);
-								vh_fail(cl, "reference-signed, ecdsa_verify rc=%d (n=%u)", rc, n);
-							} else
-								vh_nontrivial();
+							decide(t, 1, rc, e, r, s);
 						}
 					}
 					if (vh_begin(T_VRFP[algo])) {
-						cur.what = "verify_priv_key(reference-signed)"; cur.curve = cname; cur.algo = algo;
-						cur.d = d; cur.e = e; cur.k = k; cur.r = cur.s = 0;
+						cur.what = "verify_priv_key(reference-signed)";
 						if (have < 0)
 							have = tc_std_sign(t, algo, e, d, k, &r, &s);
 						if (have) {
 							cur.r = r; cur.s = s;
 							rc = lib_verify_priv(t, e, r, s, d);
-							if (0 != rc) {
-								snprintf(cl, sizeof(cl), "rejects-valid-signature[%s]", reg);
-								vh_fail(cl, "reference-signed, ecdsa_verify_priv_key rc=%d (n=%u)", rc, n);
-							} else
-								vh_nontrivial();
+							decide(t, 1, rc, e, r, s);
 						}
 					}
 				}
@@ -310,7 +386,10 @@ static const char *T_VRFB[2][2] = { { "ecdsa_verify_be/ecdsa", "ecdsa_verify_be/
 static const char *T_VRFPB[2][2] = { { "ecdsa_verify_priv_key_be/ecdsa", "ecdsa_verify_priv_key_be/gost" }, { "ecdsa_verify_priv_key_le/ecdsa", "ecdsa_verify_priv_key_le/gost" } };
 
 enum { REG_LT, REG_GE, REG_BITS, REG_UNSPEC };
-static const char *reg_name[4] = { "e<n", "e>=n", "sec1-bit-truncation", "unspecified" };
+static const char *reg_names[5] = { "e<n", "e>=n", "sec1-bit-truncation", "unspecified", "e=0" };
+/* clause suffix: a hash that the library imports as the integer zero is its own regime */
+static uint64_t std_e_lib;
+#define reg_name_of(reg, e) ((0 == std_e_lib) ? reg_names[4] : reg_names[reg])
 
 /* The integer the standard derives from a hash byte string, and the regime.
  *  ECDSA (SEC 1 4.1.3 step 5): the leftmost min(8*len, ceil(log2 n)) bits of the hash.
@@ -323,8 +402,11 @@ std_e(tc_t *t, int algo, int le, const uint8_t *hash, size_t len, uint64_t *e_re
 	uint64_t v, e_lib;
 	size_t use = (len < t->bytes) ? len : t->bytes;
 
-	if (len > 8)
+	*e_ret = 0;
+	std_e_lib = 0;
+	if (0 == len || len > 8)
 		return (REG_UNSPEC);
+	std_e_lib = tc_get(hash, use, le);
 	if (le && len > t->bytes)
 		return (REG_UNSPEC);
 	v = tc_get(hash, len, le);
@@ -341,6 +423,14 @@ std_e(tc_t *t, int algo, int le, const uint8_t *hash, size_t len, uint64_t *e_re
 	if (v != e_lib)
 		return (REG_BITS);
 	return ((v < t->n) ? REG_LT : REG_GE);
+}
+static int
+hash_is_zero(const uint8_t *h, size_t len) {
+	size_t i;
+	for (i = 0; i < len; i ++)
+		if (h[i])
+			return (0);
+	return (1);
 }
 
 /* public key encodings accepted by ecdsa_verify_*: 0 compressed, 1 packed 04, 2 separate, 3 concatenated */
@@ -373,54 +463,69 @@ static int
 nforms(tc_t *t) { /* with a one byte field the sizes of "separate" and "concatenated" collide with "O" and "compressed" */
 	return ((1 == t->bytes) ? 2 : 4);
 }
+static uint64_t
+maxval(size_t bytes) {
+	return ((bytes >= 8) ? UINT64_MAX : ((1ull << (8 * bytes)) - 1));
+}
 
 static int
 call_verify(tc_t *t, int le, const uint8_t *hash, size_t hlen, uint64_t r, uint64_t s, size_t ssz, tc_pt_t Q, int form) {
-	uint8_t *h = (uint8_t *)vh_dup(hash, hlen), *br = (uint8_t *)malloc(ssz), *bs = (uint8_t *)malloc(ssz), *px, *py;
-	size_t psz = enc_pub(t, Q, form, le, &px, &py);
+	call_t c;
 	int rc;
-	tc_put(br, ssz, r, le); tc_put(bs, ssz, s, le);
-	rc = le ? ecdsa_verify_le(t->curve, h, hlen, br, bs, ssz, px, py, psz)
-	    : ecdsa_verify_be(t->curve, h, hlen, br, bs, ssz, px, py, psz);
-	free(h); free(br); free(bs); free(px); free(py);
+	memset(&c, 0, sizeof(c));
+	c.op = OP_VERIFY_B; c.le = le; c.curve = t->curve;
+	c.bh = (uint8_t *)vh_dup(hash, hlen); c.hlen = hlen;
+	c.br = (uint8_t *)malloc(ssz); c.bs = (uint8_t *)malloc(ssz); c.slen = ssz;
+	tc_put(c.br, ssz, r, le); tc_put(c.bs, ssz, s, le);
+	c.plen = enc_pub(t, Q, form, le, &c.px, &c.py);
+	rc = call_lib(&c);
+	free(c.bh); free(c.br); free(c.bs); free(c.px); free(c.py);
 	return (rc);
 }
 static int
 call_verify_priv(tc_t *t, int le, const uint8_t *hash, size_t hlen, uint64_t r, uint64_t s, size_t ssz, uint32_t d) {
-	uint8_t *h = (uint8_t *)vh_dup(hash, hlen), *br = (uint8_t *)malloc(ssz), *bs = (uint8_t *)malloc(ssz);
-	uint8_t *bd = (uint8_t *)malloc(t->bytes);
+	call_t c;
 	int rc;
-	tc_put(br, ssz, r, le); tc_put(bs, ssz, s, le); tc_put(bd, t->bytes, d, le);
-	rc = le ? ecdsa_verify_priv_key_le(t->curve, h, hlen, br, bs, ssz, bd, t->bytes)
-	    : ecdsa_verify_priv_key_be(t->curve, h, hlen, br, bs, ssz, bd, t->bytes);
-	free(h); free(br); free(bs); free(bd);
+	memset(&c, 0, sizeof(c));
+	c.op = OP_VERIFY_PRIV_B; c.le = le; c.curve = t->curve;
+	c.bh = (uint8_t *)vh_dup(hash, hlen); c.hlen = hlen;
+	c.br = (uint8_t *)malloc(ssz); c.bs = (uint8_t *)malloc(ssz); c.slen = ssz;
+	tc_put(c.br, ssz, r, le); tc_put(c.bs, ssz, s, le);
+	c.bd = (uint8_t *)malloc(t->bytes); c.dlen = t->bytes;
+	tc_put(c.bd, t->bytes, d, le);
+	rc = call_lib(&c);
+	free(c.bh); free(c.br); free(c.bs); free(c.bd);
 	return (rc);
 }
 
 static void
 bytes_sign_one(tc_t *t, int algo, int le, uint32_t d, uint32_t k, const uint8_t *hash, size_t hlen) {
 	size_t b = t->bytes, ssz = 777;
-	uint8_t *h, *bd, *bk, *br, *bs;
 	char hx[32], cl[112];
 	uint64_t e = 0, rv, sv;
 	int rc, reg, form, bad = 0;
+	call_t c;
 
 	if (!vh_begin(T_SIGNB[le][algo]))
+		return;
+	if (C03_SKIP_ZERO && hlen > 0 && hash_is_zero(hash, MIN(hlen, b)))
 		return;
 	vh_hex(hx, sizeof(hx), hash, hlen);
 	vh_desc("sign curve=%s n=%u bytes=%zu d=%u k=%u hash[%zu]=%s", t->def->name, t->n, b, d, k, hlen, hx);
 	t->curve->algo = (uint32_t)algo;
-	h = (uint8_t *)vh_dup(hash, hlen);
-	bd = (uint8_t *)malloc(b); tc_put(bd, b, d, le);
-	bk = (uint8_t *)malloc(b); tc_put(bk, b, k, le);
-	br = (uint8_t *)malloc(b); bs = (uint8_t *)malloc(b);
-	memset(br, 0xA5, b); memset(bs, 0xA5, b);
-	rc = le ? ecdsa_sign_le(t->curve, h, hlen, bd, b, bk, b, br, bs, &ssz)
-	    : ecdsa_sign_be(t->curve, h, hlen, bd, b, bk, b, br, bs, &ssz);
+	memset(&c, 0, sizeof(c));
+	c.op = OP_SIGN_B; c.le = le; c.curve = t->curve;
+	c.bh = (uint8_t *)vh_dup(hash, hlen); c.hlen = hlen;
+	c.bd = (uint8_t *)malloc(b); tc_put(c.bd, b, d, le); c.dlen = b;
+	c.bk = (uint8_t *)malloc(b); tc_put(c.bk, b, k, le); c.klen = b;
+	c.br = (uint8_t *)malloc(b); c.bs = (uint8_t *)malloc(b);
+	memset(c.br, 0xA5, b); memset(c.bs, 0xA5, b);
+	c.ssz = &ssz;
+	rc = call_lib(&c);
 	if (0 == hlen) {
 		if (0 == rc)
 			vh_fail("empty-hash-accepted", "hash_size = 0 must be refused (EINVAL)");
-		else
+		else if (RC_CRASH != rc)
 			vh_nontrivial();
 		goto out;
 	}
@@ -430,29 +535,34 @@ bytes_sign_one(tc_t *t, int algo, int le, uint32_t d, uint32_t k, const uint8_t 
 		vh_fail("sign-size", "reported signature size %zu, field size %zu", ssz, b);
 		goto out;
 	}
-	rv = tc_get(br, b, le); sv = tc_get(bs, b, le);
+	rv = tc_get(c.br, b, le); sv = tc_get(c.bs, b, le);
 	reg = std_e(t, algo, le, hash, hlen, &e);
 	if (t->nbits > 8 * b) {
 		/* n is longer than the field (like secp160r1): a component may not fit the documented signature size.
 		 * Classification only: repeat the call at the bn level to see the untruncated pair. */
 		bn_t xh, xd, xk, xr, xs;
 		size_t use = (hlen < b) ? hlen : b;
+		call_t c2;
 		tc_bn_set(&xh, DBL(t), tc_get(hash, use, le));
 		tc_bn_set(&xd, DBL(t), d);
 		tc_bn_set(&xk, DBL(t), k);
 		bn_init(&xr, DBL(t)); bn_init(&xs, DBL(t));
-		if (0 == ecdsa_sign(t->curve, &xh, &xd, &xk, &xr, &xs) &&
-		    (tc_bn_get(&xr) != rv || tc_bn_get(&xs) != sv)) {
+		memset(&c2, 0, sizeof(c2));
+		c2.op = OP_SIGN; c2.curve = t->curve; c2.h = &xh; c2.d = &xd; c2.k = &xk; c2.r = &xr; c2.s = &xs;
+		gc_call(call_do, &c2);
+		if (0 == c2.rc && (tc_bn_get(&xr) != rv || tc_bn_get(&xs) != sv)) {
 			vh_fail("success-with-truncated-signature-component",
 			    "rc=0 but (r,s)=(%" PRIu64 ",%" PRIu64 ") was exported as (%" PRIu64 ",%" PRIu64 ") into %zu byte(s)",
 			    tc_bn_get(&xr), tc_bn_get(&xs), rv, sv, b);
 			goto out;
 		}
 	}
+	if (C03_SKIP_ZERO && (0 == rv || 0 == sv))
+		goto out;
 	for (form = 0; form < nforms(t); form ++) {
 		rc = call_verify(t, le, hash, hlen, rv, sv, b, t->kG[d], form);
 		if (0 != rc) {
-			snprintf(cl, sizeof(cl), "own-signature-rejected-by-verify[%s]", reg_name[reg]);
+			snprintf(cl, sizeof(cl), "own-signature-rejected-by-verify[%s]", reg_name_of(reg, e));
 			vh_fail(cl, "(r,s)=(%" PRIu64 ",%" PRIu64 ") key form %d rc=%d", rv, sv, form, rc);
 			bad = 1;
 			break;
@@ -460,12 +570,12 @@ bytes_sign_one(tc_t *t, int algo, int le, uint32_t d, uint32_t k, const uint8_t 
 	}
 	rc = call_verify_priv(t, le, hash, hlen, rv, sv, b, d);
 	if (0 != rc) {
-		snprintf(cl, sizeof(cl), "own-signature-rejected-by-verify_priv_key[%s]", reg_name[reg]);
+		snprintf(cl, sizeof(cl), "own-signature-rejected-by-verify_priv_key[%s]", reg_name_of(reg, e));
 		vh_fail(cl, "(r,s)=(%" PRIu64 ",%" PRIu64 ") rc=%d", rv, sv, rc);
 		bad = 1;
 	}
 	if (REG_UNSPEC != reg && !tc_std_verify(t, algo, e, rv, sv, t->kG[d])) {
-		snprintf(cl, sizeof(cl), "signature-rejected-by-standard-verifier[%s]", reg_name[reg]);
+		snprintf(cl, sizeof(cl), "signature-rejected-by-standard-verifier[%s]", reg_name_of(reg, e));
 		vh_fail(cl, "(r,s)=(%" PRIu64 ",%" PRIu64 ") is not a valid %s signature; the standard derives e=%" PRIu64 " from this hash",
 		    rv, sv, algo_name[algo], e);
 		bad = 1;
@@ -473,7 +583,7 @@ bytes_sign_one(tc_t *t, int algo, int le, uint32_t d, uint32_t k, const uint8_t 
 	if (!bad)
 		vh_nontrivial();
 out:
-	free(h); free(bd); free(bk); free(br); free(bs);
+	free(c.bh); free(c.bd); free(c.bk); free(c.br); free(c.bs);
 }
 
 /* one (hash, r, s, key) tuple through ecdsa_verify_X and ecdsa_verify_priv_key_X; decision must equal the standard's */
@@ -490,6 +600,10 @@ bytes_verify_one(tc_t *t, int algo, int le, const char *what, const uint8_t *has
 			continue;
 		if (REG_UNSPEC == reg)
 			continue;
+		if (r > maxval(ssz) || s > maxval(ssz) || (which && qi > maxval(t->bytes)))
+			continue; /* cannot be presented in that many bytes */
+		if (C03_SKIP_ZERO && (0 == r || 0 == s || 0 == std_e_lib))
+			continue;
 		vh_hex(hx, sizeof(hx), hash, hlen);
 		vh_desc("%s curve=%s n=%u bytes=%zu key=%u*G form=%d hash[%zu]=%s r=%" PRIu64 " s=%" PRIu64 " sign_size=%zu",
 		    what, t->def->name, t->n, (size_t)t->bytes, qi, form, hlen, hx, r, s, ssz);
@@ -497,6 +611,8 @@ bytes_verify_one(tc_t *t, int algo, int le, const char *what, const uint8_t *has
 		std = tc_std_verify(t, algo, e, r, s, t->kG[qi]);
 		rc = which ? call_verify_priv(t, le, hash, hlen, r, s, ssz, qi)
 		    : call_verify(t, le, hash, hlen, r, s, ssz, t->kG[qi], form);
+		if (RC_CRASH == rc)
+			continue;
 		lib = (0 == rc);
 		if (lib == std) {
 			if (std)
@@ -507,10 +623,13 @@ bytes_verify_one(tc_t *t, int algo, int le, const char *what, const uint8_t *has
 			if (r < 1 || r >= t->n || s < 1 || s >= t->n)
 				snprintf(cl, sizeof(cl), "accepts-r-or-s-outside-1..n-1");
 			else
-				snprintf(cl, sizeof(cl), "accepts-invalid-signature[%s]", reg_name[reg]);
+				snprintf(cl, sizeof(cl), "accepts-invalid-signature[%s]", reg_name_of(reg, e));
 			vh_fail(cl, "library rc=0, the standard (e=%" PRIu64 ") rejects", e);
 		} else {
-			snprintf(cl, sizeof(cl), "rejects-valid-signature[%s]", reg_name[reg]);
+			if (is_n_overflow(t, rc))
+				snprintf(cl, sizeof(cl), "rejects-valid-signature:EOVERFLOW[n-longer-than-field]");
+			else
+				snprintf(cl, sizeof(cl), "rejects-valid-signature[%s]", reg_name_of(reg, e));
 			vh_fail(cl, "library rc=%d, the standard (e=%" PRIu64 ") accepts", rc, e);
 		}
 	}
@@ -519,7 +638,7 @@ bytes_verify_one(tc_t *t, int algo, int le, const char *what, const uint8_t *has
 static void
 bytes_verify_family(tc_t *t, int algo, int le, uint32_t d, uint32_t k, const uint8_t *hash, size_t hlen) {
 	size_t b = t->bytes, i;
-	uint64_t e = 0, maxv = (b >= 8) ? UINT64_MAX : ((1ull << (8 * b)) - 1);
+	uint64_t e = 0, maxv = maxval(b);
 	uint32_t r, s;
 	uint8_t hm[8];
 	int reg, form;
@@ -535,7 +654,7 @@ bytes_verify_family(tc_t *t, int algo, int le, uint32_t d, uint32_t k, const uin
 	for (form = 0; form < nforms(t); form ++)
 		bytes_verify_one(t, algo, le, "valid", hash, hlen, r, s, b, d, form);
 	/* shorter sign_size when both components fit */
-	if (b > 1 && r < (1ull << (8 * (b - 1))) && s < (1ull << (8 * (b - 1))))
+	if (b > 1)
 		bytes_verify_one(t, algo, le, "valid-short-sign_size", hash, hlen, r, s, b - 1, d, 0);
 	/* altered hash: every single bit */
 	for (i = 0; i < 8 * hlen; i ++) {
@@ -551,8 +670,6 @@ bytes_verify_family(tc_t *t, int algo, int le, uint32_t d, uint32_t k, const uin
 	{
 		uint64_t bv[] = { 0, 1, t->n - 1, t->n, (uint64_t)t->n + 1, maxv, (uint64_t)r + t->n, (uint64_t)s + t->n };
 		for (i = 0; i < sizeof(bv) / sizeof(bv[0]); i ++) {
-			if (bv[i] > maxv)
-				continue;
 			bytes_verify_one(t, algo, le, "r-boundary", hash, hlen, bv[i], s, b, d, 0);
 			bytes_verify_one(t, algo, le, "s-boundary", hash, hlen, r, bv[i], b, d, 0);
 		}
@@ -574,15 +691,17 @@ bytes_all(const char *cname, int light) {
 	int algo, le;
 	uint32_t D[8], K[8], nd = 0, nk = 0;
 	uint8_t A[10], h[8];
-	uint64_t tot, v;
+	uint64_t tot, v, maxv;
 	size_t na = 0, na_l;
 
 	if (NULL == t->curve)
 		return;
 	b = t->bytes;
+	maxv = maxval(b);
 	{
-		uint32_t dv[] = { 1, 2, n / 2, n - 2, n - 1 };
-		uint32_t kv[] = { 1, 2, n / 3, n - 1, n, (b == 1) ? 255u : 65535u };
+		uint32_t top = (uint32_t)MIN((uint64_t)n - 1, maxv); /* largest private key that fits the field size */
+		uint32_t dv[] = { 1, 2, n / 2, top - 1, top };
+		uint32_t kv[] = { 1, 2, n / 3, top, (uint32_t)MIN((uint64_t)n, maxv), (uint32_t)maxv };
 		for (i = 0; i < (light ? 2u : 5u); i ++) D[nd ++] = dv[light ? (i * 3 + 1) : i];
 		for (i = 0; i < (light ? 3u : 6u); i ++) K[nk ++] = kv[light ? (i * 2 + 1) : i];
 	}
@@ -603,6 +722,7 @@ bytes_all(const char *cname, int light) {
 		for (le = 0; le < 2; le ++) {
 			for (i = 0; i < nd; i ++) {
 				for (j = 0; j < nk; j ++) {
+					uint32_t kk = (K[j] % (n - 1)) + 1; /* nonce of the reference signer */
 					for (c = 0; c < nl; c ++) {
 						L = lens[c];
 						if (0 == L) {
@@ -613,7 +733,8 @@ bytes_all(const char *cname, int light) {
 							for (a = 0; a < 256; a ++) {
 								h[0] = (uint8_t)a;
 								bytes_sign_one(t, algo, le, D[i], K[j], h, 1);
-								bytes_verify_family(t, algo, le, D[i], (K[j] % (n - 1)) + 1, h, 1);
+								if (!light || 0 == ((a + j) % 4) || a < 4 || a + 4 > 255 || (a + 3 >= (n & 255) && a <= (n & 255) + 3))
+									bytes_verify_family(t, algo, le, D[i], kk, h, 1);
 							}
 							continue;
 						}
@@ -625,12 +746,11 @@ bytes_all(const char *cname, int light) {
 							uint64_t q = v;
 							for (a = 0; a < L; a ++) { h[a] = A[q % na_l]; q /= na_l; }
 							bytes_sign_one(t, algo, le, D[i], K[j], h, L);
-							if (0 == (j % 2))
-								bytes_verify_family(t, algo, le, D[i], (K[j] % (n - 1)) + 1, h, L);
+							if (0 == (j % 2) && (!light || 0 == (v % 3)))
+								bytes_verify_family(t, algo, le, D[i], kk, h, L);
 						}
 						/* at the field length: every value in [0,3], [n-3, n+3] and the top three */
 						if (L == b && b > 1) {
-							uint64_t maxv = (1ull << (8 * b)) - 1;
 							uint64_t nv[] = { 0, 1, 2, 3, n - 3, n - 2, n - 1, n, (uint64_t)n + 1, (uint64_t)n + 2, (uint64_t)n + 3,
 							    2ull * n - 1, 2ull * n, 2ull * n + 1, maxv - 2, maxv - 1, maxv };
 							for (a = 0; a < sizeof(nv) / sizeof(nv[0]); a ++) {
@@ -638,7 +758,7 @@ bytes_all(const char *cname, int light) {
 									continue;
 								tc_put(h, b, nv[a], le);
 								bytes_sign_one(t, algo, le, D[i], K[j], h, b);
-								bytes_verify_family(t, algo, le, D[i], (K[j] % (n - 1)) + 1, h, b);
+								bytes_verify_family(t, algo, le, D[i], kk, h, b);
 							}
 						}
 					}
@@ -651,64 +771,83 @@ bytes_all(const char *cname, int light) {
 int
 main(int argc, char **argv) {
 	vh_init(argc, argv);
-	/* part B: full truth tables (group sizes 11, 11, 17; thorough adds 31 and, in the heavy configuration, 43) */
-	truth_all("t13");
-	truth_all("t17");
-	truth_all("t11");
-	if (vh_thorough || C03_HEAVY)
-		truth_all("t23m3");
-	if (vh_thorough && C03_HEAVY)
-		truth_all("t31a0");
-	/* part A: signing, all (d, e, k) */
-	sign_all("t13", 0);
-	sign_all("t17", 0);
-	sign_all("t11", 0);
-	sign_all("t23m3", 0);
-	if (vh_thorough || C03_HEAVY) {
-		sign_all("t31a0", 0);
-		sign_all("t61", 0);
+	if (C03_PARTS & 2) {
+		/* part B: full truth tables (group orders 11, 11, 17; thorough: 31, and 43 in the heavy configuration) */
+		truth_all("t13");
+		truth_all("t17");
+		truth_all("t11");
+		if (vh_thorough)
+			truth_all("t23m3");
+		if (vh_thorough && C03_HEAVY)
+			truth_all("t31a0");
 	}
-	if (vh_thorough) {
-		sign_all("t43", 0);
-		if (C03_HEAVY) {
-			sign_all("s127", 0);
-			sign_all("s251", 0);
+	if (C03_PARTS & 1) {
+		/* part A: signing, all (d, e, k) */
+		sign_all("t13", 0);
+		sign_all("t17", 0);
+		sign_all("t11", 0);
+		sign_all("t23m3", 0);
+		if (vh_thorough || C03_HEAVY)
+			sign_all("t31a0", 0);
+		if (vh_thorough) {
+			sign_all("t61", 0);
+			sign_all("t43", 0);
+			if (C03_HEAVY) {
+				sign_all("s127", 0);
+				sign_all("s251", 0);
+			}
+		}
+		sign_all("s199", 1);
+		sign_all("s251", 1);
+		sign_all("w263m3", 1);
+		if (vh_thorough || C03_HEAVY) {
+			sign_all("s229a0", 1);
+			sign_all("s241m3", 1);
+			sign_all("w257", 1);
+		}
+		if (vh_thorough) {
+			sign_all("s127", 1);
+			sign_all("w1021", 1);
 		}
 	}
-	sign_all("s199", 1);
-	sign_all("s229a0", 1);
-	sign_all("s241m3", 1);
-	sign_all("s251", 1);
-	sign_all("w257", 1);
-	sign_all("w263m3", 1);
-	if (vh_thorough) {
-		sign_all("s127", 1);
-		sign_all("w1021", 1);
+	if (C03_PARTS & 2) {
+		/* reference-signed signatures offered to the library on the larger groups */
+		if (vh_thorough) {
+			refsig_all("t31a0", 0);
+			refsig_all("t61", 0);
+			if (C03_HEAVY)
+				refsig_all("s127", 0);
+		} else {
+			refsig_all("t31a0", 1);
+		}
+		refsig_all("s199", 1);
+		refsig_all("s251", 1);
+		refsig_all("w257", 1);
+		if (vh_thorough || C03_HEAVY) {
+			refsig_all("s241m3", 1);
+			refsig_all("s229a0", 1);
+		}
+		if (vh_thorough) {
+			refsig_all("w263m3", 1);
+			refsig_all("w1021", 1);
+		}
 	}
-	/* reference-signed signatures offered to the library on the larger groups */
-	refsig_all("t31a0", 0);
-	refsig_all("t61", 0);
-	if (vh_thorough && C03_HEAVY) {
-		refsig_all("s127", 0);
+	if (C03_PARTS & 4) {
+		/* part C: byte entry points */
+		bytes_all("s199", !vh_thorough);
+		bytes_all("s127", 1);		/* n has 7 bits in a one byte field */
+		bytes_all("s251", 1);		/* n has 9 bits in a one byte field: r, s may not fit */
+		bytes_all("w263m3", !vh_thorough);
+		bytes_all("w65521", 1);		/* n has 17 bits in a two byte field */
+		if (vh_thorough) {
+			bytes_all("s241m3", 1);
+			bytes_all("w257", 1);
+		}
 	}
-	refsig_all("s199", 1);
-	refsig_all("s251", 1);
-	refsig_all("s241m3", 1);
-	refsig_all("w257", 1);
-	if (vh_thorough) {
-		refsig_all("s229a0", 1);
-		refsig_all("w263m3", 1);
-		refsig_all("w1021", 1);
-	}
-	/* part C: byte entry points */
-	bytes_all("s199", !vh_thorough && !C03_HEAVY);
-	bytes_all("s127", 1);		/* n has 7 bits in a one byte field */
-	bytes_all("s251", 1);		/* n has 9 bits in a one byte field: r, s may not fit */
-	bytes_all("w263m3", !vh_thorough && !C03_HEAVY);
-	bytes_all("w65521", 1);		/* n has 17 bits in a two byte field */
-	if (vh_thorough) {
-		bytes_all("s241m3", 1);
-		bytes_all("w257", 1);
-	}
+#ifndef GC_DISABLE
+	if (0 == vh_shard && NULL == vh_only_target)
+		printf("NOTE\tguarded calls in shard 0: %llu, contained crashes/hangs: %llu\n",
+		    (unsigned long long)gc_calls, (unsigned long long)gc_crashes);
+#endif
 	return (vh_finish());
 }
